@@ -73,6 +73,9 @@ package domain
 //@   modifies *
 //@   ensures result == nil && calls(NormalizeDomain) == 1 && arg(NormalizeDomain, 0, 0) == s && arg(newScanner, 0, 0) == ret(NormalizeDomain, 0)
 //@   ensures calls(storeValue) == 1 && arg(storeValue, 0, 1) == v
+// adding a rule never removes other rules: the node that receives the value keeps its subtree
+// (longer rules below it keep their own values, which take precedence for their names)
+//@   ensures arg(storeValue, 0, 0).children == aftercall(storeValue, 0, arg(storeValue, 0, 0).children)
 //@   loop 0:
 //@     invariant currentNode != nil && ds != nil && 0 - 1 <= ds.p && ds.p <= len(ds.s) && calls(storeValue) == 0
 //@     each iter_calls(scan) == 1 && iter_ret(scan, 0) && iter_calls(nextLabel) == 1 && iter_calls(getChild) == 1 && iter_arg(getChild, 0, 0) == athead(currentNode) && iter_arg(getChild, 0, 1) == iter_ret(nextLabel, 0)
